@@ -5,13 +5,14 @@
     [c04_mis_g]: ids of the cases where the compiled program's output differs from G. *)
 From Verif Require Import Mem.GoStore Mem.ReflectModel.
 
-Definition zS : val := VStruct [VInt 0%Z; VArr [VInt 0%Z; VInt 0%Z]; VNil; VNil; VNil].
+Definition zS : val := VStruct [VInt 0%Z; VArr [VInt 0%Z; VInt 0%Z]; VNil; VNil; VNil; VNil].
 
-(** the pool of DESIGN.md D.2, zero-valued: a s sl ss m p q ai si i j k *)
+(** the pool of DESIGN.md D.2, zero-valued: a s sl ss m p q ai si i j k ea es em e *)
 Definition init_heap : heap :=
   [CVal (VArr [zS; zS; zS]); CVal zS; CVal VNil; CVal VNil; CVal VNil; CVal VNil; CVal VNil;
-   CVal (VArr [VInt 0%Z; VInt 0%Z; VInt 0%Z; VInt 0%Z]); CVal VNil; CVal (VInt 0%Z); CVal (VInt 0%Z); CVal (VInt 0%Z)].
-Definition init_env : env := map (fun x => (x, x)) (seq 0 12).
+   CVal (VArr [VInt 0%Z; VInt 0%Z; VInt 0%Z; VInt 0%Z]); CVal VNil; CVal (VInt 0%Z); CVal (VInt 0%Z); CVal (VInt 0%Z);
+   CVal (VArr [VNil; VNil; VNil]); CVal VNil; CVal VNil; CVal VNil].
+Definition init_env : env := map (fun x => (x, x)) (seq 0 16).
 Definition init_st : st := mkst init_heap init_env.
 
 Fixpoint grow_of (tab : list (nat * nat * nat * nat)) (ek c n : nat) : nat :=
